@@ -128,16 +128,6 @@ package testscript
 //@   pure
 //@   ensures sameStr(result, isAbsP(file) ? file : joinP(ts.cd, file))
 
-//@ func (*TestScript).ReadFile
-//@   trusted
-//@   requires ts != nil
-//@   pure
-
-//@ func (*TestScript).Logf
-//@   trusted
-//@   requires ts != nil
-//@   pure
-
 //@ extern github.com/rogpeppe/go-internal/diff.Diff(oldName, old, newName, new) (r)
 //@   pure
 
@@ -191,7 +181,7 @@ package testscript
 //@   ensures forall K {at(ts.archive.Files,K)} :: lo(ts.archive.Files) <= K && K < hi(ts.archive.Files) ==> sameStr(at(ts.archive.Files,K).Name, old(at(ts.archive.Files,K)).Name) && (!mapkeys(ts.scriptUpdates)[at(ts.archive.Files,K).Name] ==> sameSlice(at(ts.archive.Files,K).Data, old(at(ts.archive.Files,K)).Data))
 
 // ---- C01: verdict logic ----
-//@ property C01: (*TestScript).run, (*TestScript).runLine, (*TestScript).Fatalf, catchFailNow, (*TestScript).cmdExists, scriptMatch, (*TestScript).MkAbs, (*TestScript).Check
+//@ property C01: (*TestScript).run, (*TestScript).runLine, (*TestScript).Fatalf, catchFailNow, (*TestScript).cmdExists, scriptMatch, (*TestScript).MkAbs, (*TestScript).Check, (*TestScript).cmdCd, (*TestScript).cmdChmod, (*TestScript).cmdCp, (*TestScript).cmdMkdir, (*TestScript).cmdMv, (*TestScript).cmdRm, (*TestScript).cmdSymlink, (*TestScript).cmdUnquote, (*TestScript).cmdUNIX2DOS, (*TestScript).cmdStdin, (*TestScript).cmdStop, (*TestScript).cmdCmp, (*TestScript).cmdCmpenv, (*TestScript).cmdWait, (*TestScript).cmdSkip, (*TestScript).cmdStdout, (*TestScript).cmdStderr, (*TestScript).cmdGrep, (*TestScript).cmdTtyout, (*TestScript).Chdir, (*TestScript).ReadFile
 
 //@ extern (github.com/rogpeppe/go-internal/testscript.T).FailNow(t)
 //@   noreturn
@@ -457,3 +447,140 @@ package testscript
 //@   at call (*testscript.TestScript).Fatalf#0: requires gStarted - gReaped - len(ts.background) == old(gStarted) - old(gReaped) - old(len(ts.background))
 //@   ensures gStarted - gReaped - len(ts.background) == old(gStarted) - old(gReaped) - old(len(ts.background))
 //@   ensures forall K {at(ts.background,K)} :: lo(ts.background) <= K && K < hi(ts.background) ==> at(ts.background,K).cmd != nil
+
+// ---- C01 (breadth): the remaining built-in commands ----
+// A normal return of a command means: it was not negated where negation is unsupported,
+// its usage was right (every args index is in bounds), and no file operation it
+// performed failed (gOpFailed is a history flag set by every failing operation; a
+// failure must end in Fatalf/Check, which do not return).
+//@ ghost history var gOpFailed Bool
+//@ extern os.ReadFile(name) (data, err)
+//@   modifies new bytes, gOpFailed
+//@   ensures data == nil || fresh(data)
+//@   ensures gOpFailed == (old(gOpFailed) || err != nil)
+//@ extern os.MkdirAll(path, perm) (err)
+//@   modifies gOpFailed
+//@   ensures gOpFailed == (old(gOpFailed) || err != nil)
+//@ extern os.Rename(oldpath, newpath) (err)
+//@   modifies fsExists, fsData, gOpFailed
+//@   ensures gOpFailed == (old(gOpFailed) || err != nil)
+//@ extern os.Symlink(oldname, newname) (err)
+//@   modifies fsExists, gOpFailed
+//@   ensures gOpFailed == (old(gOpFailed) || err != nil)
+//@ extern os.Chmod(name, mode) (err)
+//@   modifies gOpFailed
+//@   ensures gOpFailed == (old(gOpFailed) || err != nil)
+//@ extern os.RemoveAll(path) (err)
+//@   modifies fsExists, gTreeRemoved, gOpFailed
+//@   ensures gTreeRemoved[sid(path)]
+//@   ensures forall p int {gTreeRemoved[p]} :: old(gTreeRemoved)[p] ==> gTreeRemoved[p]
+//@   ensures gOpFailed == (old(gOpFailed) || err != nil)
+//@ extern github.com/rogpeppe/go-internal/txtar.Unquote(data) (r, err)
+//@   modifies new bytes, gOpFailed
+//@   ensures gOpFailed == (old(gOpFailed) || err != nil)
+//@ extern os.IsNotExist(err) (r)
+//@   pure
+//@   ensures err == nil ==> !r
+//@ extern strconv.ParseUint(s, base, bitSize) (r, err)
+//@   pure
+//@   ensures r >= 0
+//@ extern (os.FileInfo).Mode(fi) (r)
+//@   pure
+//@   ensures r >= 0
+//@ extern (github.com/rogpeppe/go-internal/testscript.T).Skip(t, args)
+//@   noreturn
+//@ func unix2DOS
+//@   trusted
+//@   modifies new bytes, gOpFailed
+//@   ensures gOpFailed == (old(gOpFailed) || result1 != nil)
+//@ func (*TestScript).Chdir
+//@   requires ts != nil
+//@   modifies F_S_testscript_TestScript_cd, gOpFailed
+//@   ensures gOpFailed == old(gOpFailed) || result != nil
+//@ func (*TestScript).ReadFile
+//@   requires ts != nil
+//@   modifies new bytes, gOpFailed
+//@   ensures gOpFailed == old(gOpFailed)
+//@ func (*TestScript).Logf
+//@   requires ts != nil
+//@   pure
+
+//@ func (*TestScript).cmdCd
+//@   requires ts != nil
+//@   modifies F_S_testscript_TestScript_cd, gOpFailed
+//@   ensures !neg && len(args) == 1 && gOpFailed == old(gOpFailed)
+//@ func (*TestScript).cmdChmod
+//@   requires ts != nil
+//@   modifies gOpFailed, new H_Str
+//@   loop 1: invariant -1 <= rangeindex && gOpFailed == old(gOpFailed)
+//@   ensures !neg && gOpFailed == old(gOpFailed)
+//@ func (*TestScript).cmdMkdir
+//@   requires ts != nil
+//@   modifies gOpFailed
+//@   loop 1: invariant -1 <= rangeindex && gOpFailed == old(gOpFailed)
+//@   ensures !neg && len(args) >= 1 && gOpFailed == old(gOpFailed)
+//@ func (*TestScript).cmdMv
+//@   requires ts != nil
+//@   modifies fsExists, fsData, gOpFailed
+//@   at call os.Rename#1: requires sameStr(oldpath, isAbsP(at(args, lo(args))) ? at(args, lo(args)) : joinP(ts.cd, at(args, lo(args)))) && sameStr(newpath, isAbsP(at(args, lo(args)+1)) ? at(args, lo(args)+1) : joinP(ts.cd, at(args, lo(args)+1)))
+//@   ensures !neg && len(args) == 2 && gOpFailed == old(gOpFailed)
+//@ func (*TestScript).cmdRm
+//@   requires ts != nil
+//@   modifies fsExists, gTreeRemoved, gOpFailed
+//@   loop 1: invariant -1 <= rangeindex && gOpFailed == old(gOpFailed)
+//@   ensures !neg && len(args) >= 1 && gOpFailed == old(gOpFailed)
+//@ func (*TestScript).cmdSymlink
+//@   requires ts != nil
+//@   modifies fsExists, gOpFailed
+//@   at call os.Symlink#1: requires sameStr(oldname, at(args, lo(args)+2))
+//@   ensures !neg && len(args) == 3 && gOpFailed == old(gOpFailed)
+//@ func (*TestScript).cmdUnquote
+//@   requires ts != nil
+//@   modifies new bytes, fsExists, fsData, fsSize, fsBytes, fsWrites, gOpFailed
+//@   loop 1: invariant -1 <= rangeindex && gOpFailed == old(gOpFailed)
+//@   ensures !neg && gOpFailed == old(gOpFailed)
+//@ func (*TestScript).cmdUNIX2DOS
+//@   requires ts != nil
+//@   modifies new bytes, fsExists, fsData, fsSize, fsBytes, fsWrites, gOpFailed
+//@   loop 1: invariant -1 <= rangeindex && gOpFailed == old(gOpFailed)
+//@   ensures !neg && len(args) >= 1 && gOpFailed == old(gOpFailed)
+//@ func (*TestScript).cmdStdin
+//@   requires ts != nil
+//@   modifies F_S_testscript_TestScript_stdin, new bytes, gOpFailed
+//@   ensures !neg && len(args) == 1 && !ts.stdinPty && gOpFailed == old(gOpFailed)
+//@ func (*TestScript).cmdStop
+//@   requires ts != nil
+//@   modifies F_S_testscript_TestScript_stopped
+//@   ensures !neg && len(args) <= 1 && ts.stopped
+//@ func (*TestScript).cmdCmp
+//@   requires ts != nil && ts.envMap != nil && ts.scriptUpdates != nil && ts.scriptFiles != ts.scriptUpdates
+//@   ensures len(args) == 2
+//@ func (*TestScript).cmdCmpenv
+//@   requires ts != nil && ts.envMap != nil && ts.scriptUpdates != nil && ts.scriptFiles != ts.scriptUpdates
+//@   ensures len(args) == 2
+//@ func (*TestScript).cmdWait
+//@   requires ts != nil
+//@   requires forall K {at(ts.background,K)} :: lo(ts.background) <= K && K < hi(ts.background) ==> at(ts.background,K).cmd != nil
+//@   ensures !neg && len(args) <= 1
+//@ func (*TestScript).waitBackgroundOne
+//@   trusted
+//@   requires ts != nil
+//@   modifies F_S_testscript_TestScript_stdout, F_S_testscript_TestScript_stderr, F_S_testscript_TestScript_background, H_*
+//@ func (*TestScript).cmdSkip
+//@   requires ts != nil
+//@   requires forall K {at(ts.background,K)} :: lo(ts.background) <= K && K < hi(ts.background) ==> at(ts.background,K).cmd != nil
+//@   loop 1: invariant -1 <= rangeindex
+//@   noreturn
+//@ func (*TestScript).cmdCp
+//@   requires ts != nil
+//@   modifies new bytes, new H_Str, fsExists, fsData, fsSize, fsBytes, fsWrites, gOpFailed
+//@   loop 1: invariant -1 <= rangeindex && gOpFailed == old(gOpFailed)
+//@   ensures !neg && len(args) >= 2 && gOpFailed == old(gOpFailed)
+//@ func (*TestScript).cmdStdout
+//@   requires ts != nil && failBudget == 0
+//@ func (*TestScript).cmdStderr
+//@   requires ts != nil && failBudget == 0
+//@ func (*TestScript).cmdGrep
+//@   requires ts != nil && failBudget == 0
+//@ func (*TestScript).cmdTtyout
+//@   requires ts != nil && failBudget == 0
